@@ -163,4 +163,9 @@ def check(ctx: Ctx) -> str:
         ctx.check(not clash, f"proxy:{spec}", spec, f"parameters {clash} can be bound by a template keyword",
                   f"{spec} takes the template's keyword arguments in **{a.kwarg.arg} but also has the keyword-bindable parameters {clash}: `{{{{ m({clash[0] if clash else 'x'}=1) }}}}` raises TypeError (multiple values for argument) instead of reaching the macro's kwargs - make them positional-only (`/`) or name-mangled",
                   fi.loc(), detail={"function": spec, "positional_only": [x.arg for x in a.posonlyargs], "clash": clash})
+    # the defaults of a `{% call(...) %}` signature are analysed into the frame they are compiled
+    # in, like a macro's (rule owned by C03)
+    from . import c03
+
+    ctx.run_imported("C03", {"R7"}, c03.check)
     return __doc__ or ""
